@@ -162,6 +162,50 @@ theorem mem_kept_names (cs : List Var) (f : Name × Var → Bool) (g : Name → 
   · rintro ⟨⟨p, hp, rfl⟩, hg⟩
     exact ⟨p.2, ⟨p, ⟨hp, (hf p).2 hg⟩, rfl⟩, childDict_val_name cs p hp⟩
 
+/-! ### marginalising a joint leaf -/
+
+/-- summing `Φ (xs ∪ E)` over the names `xs` leaves `Φ E` -/
+theorem marg_list (S : LeafSem card leaf) {pop : Option Var} {w : List Iv} (hw : S.okW pop w) :
+    ∀ (xs E : List Name), xs.Nodup → (∀ x ∈ xs, x ∉ E) → (∀ x ∈ xs, S.okN pop w x ∧ S.U x) →
+      sumVars card xs (S.Φ pop w (xs ++ E)) = S.Φ pop w E
+  | [], E, _, _, _ => rfl
+  | x :: xs, E, hnd, hdis, hok => by
+    have hnd' := List.nodup_cons.1 hnd
+    have hcg : S.Φ pop w (x :: xs ++ E) = S.Φ pop w (xs ++ x :: E) :=
+      S.congr pop w _ _ (by intro v; simp; tauto)
+    have ih := marg_list S hw xs (x :: E) hnd'.2 (by
+      intro y hy hmem
+      rcases List.mem_cons.1 hmem with rfl | h
+      · exact hnd'.1 hy
+      · exact hdis y (List.mem_cons_of_mem _ hy) h) (fun y hy => hok y (List.mem_cons_of_mem _ hy))
+    funext σ
+    simp only [sumVars]
+    rw [hcg, ih]
+    exact S.marg pop w x E hw (hok x (by simp)).1 (hok x (by simp)).2 (hdis x (by simp)) σ
+
+/-- summing the joint `Φ F` over `rsn`: the names in `F` are marginalised, the others stay as an outer sum -/
+theorem sum_leaf_core (S : LeafSem card leaf) {pop : Option Var} {w : List Iv} (hw : S.okW pop w)
+    (F keys rsn E : List Name) (hF : ∀ n, n ∈ keys ↔ n ∈ F) (hokF : ∀ n ∈ F, S.okN pop w n) (hnd : rsn.Nodup)
+    (hU : ∀ n ∈ rsn, S.U n) (hE : ∀ n, n ∈ E ↔ n ∈ keys ∧ n ∉ rsn) :
+    sumVars card rsn (S.Φ pop w F) =
+      sumVars card (rsn.filter (fun n => decide (n ∉ keys))) (S.Φ pop w E) := by
+  rw [sumVars_split card rsn (fun n => decide (n ∉ keys))]
+  congr 1
+  have hcg : S.Φ pop w F = S.Φ pop w (rsn.filter (fun v => !decide (v ∉ keys)) ++ E) := by
+    apply S.congr
+    intro v
+    simp only [List.mem_append, List.mem_filter, hE, ← hF]
+    by_cases h1 : v ∈ rsn <;> by_cases h2 : v ∈ keys <;> simp [h1, h2]
+  rw [hcg]
+  apply marg_list S hw
+  · exact hnd.filter _
+  · intro x hx hxE
+    exact ((hE x).1 hxE).2 (List.mem_filter.1 hx).1
+  · intro x hx
+    have hx' := List.mem_filter.1 hx
+    have hk : x ∈ keys := by simpa using hx'.2
+    exact ⟨hokF x ((hF x).1 hk), hU x hx'.1⟩
+
 end TrsoAux
 
 /-- the names of `plainVars ns` are the names `ns`, each once -/
@@ -183,7 +227,94 @@ theorem sumVars_plainVars (ns : List Name) (f : Val → Rat) :
 theorem denL_sumSimplify (S : LeafSem card leaf) {e : Expr} {rs : List Var} (he : Good S e)
     (hr : ∀ v ∈ rs, S.Rng v) (hnd : (rs.map (·.name)).Nodup) (σ : Val) :
     denL card leaf (sumSimplify e rs) σ = sumVars card (rs.map (·.name)) (fun τ => denL card leaf e τ) σ := by
-  sorry
+  unfold sumSimplify
+  split
+  · rename_i pop children
+    obtain ⟨w, hw, hall⟩ : S.Adm pop children [] := he.2
+    -- every sub-leaf is the joint of its names
+    have hleaf : ∀ cs : List Var, (∀ v ∈ cs, v ∈ children) → ∀ τ,
+        denL card leaf (.prob pop cs []) τ = S.Φ pop w (vnames cs) τ := by
+      intro cs hcs τ
+      simp only [denL]
+      rw [S.leaf_eq pop w cs [] hw (by
+        intro v hv
+        exact hall v (by simpa using hcs v (by simpa using hv))) τ]
+      simp [vnames, S.nil pop w hw τ]
+    have hfun : (fun τ => denL card leaf (.prob pop children []) τ) = S.Φ pop w (vnames children) :=
+      funext (hleaf children (fun _ h => h))
+    have hkeys : ∀ n, n ∈ (childDict children).map (·.1) ↔ n ∈ vnames children := by
+      intro n
+      rw [TrsoAux.mem_childDict_keys]
+      simp [vnames]
+    have hcore := TrsoAux.sum_leaf_core S hw (vnames children) ((childDict children).map (·.1))
+      (rs.map (·.name)) (hF := hkeys)
+      (hokF := by
+        intro n hn
+        obtain ⟨c, hc, rfl⟩ := List.mem_map.1 hn
+        exact (hall c (by simpa using hc)).2.2)
+      (hnd := hnd)
+      (hU := by
+        intro n hn
+        obtain ⟨v, hv, rfl⟩ := List.mem_map.1 hn
+        exact (hr v hv).2)
+    have hsub : ∀ (f : Name × Var → Bool), ∀ v ∈ sortVars (((childDict children).filter f).map (·.2)), v ∈ children := by
+      intro f v hv
+      simp only [mem_sortVars, List.mem_map, List.mem_filter] at hv
+      rcases hv with ⟨p, ⟨hp, _⟩, rfl⟩
+      exact childDict_val_mem children p hp
+    have hfilt : (rs.filter (fun r => decide (r.name ∉ (childDict children).map (·.1)))).map (·.name) =
+        (rs.map (·.name)).filter (fun n => decide (n ∉ (childDict children).map (·.1))) := by
+      rw [List.filter_map]; rfl
+    rw [hfun]
+    simp only []
+    split
+    · -- every key is summed, nothing else
+      rename_i hse
+      simp only [seteq', Bool.and_eq_true, TrsoAux.subset'_iff] at hse
+      rw [hcore [] (by
+        intro n; simp only [List.not_mem_nil, false_iff, not_and, not_not]; exact hse.2 n)]
+      have : (rs.map (·.name)).filter (fun n => decide (n ∉ (childDict children).map (·.1))) = [] := by
+        rw [List.filter_eq_nil_iff]; intro a ha; simpa using hse.1 a ha
+      rw [this]
+      simp [denL, sumVars, S.nil pop w hw σ]
+    · split
+      · -- every key is summed, some ranges are left
+        rename_i _ hsk
+        rw [TrsoAux.subset'_iff] at hsk
+        rw [hcore [] (by
+          intro n; simp only [List.not_mem_nil, false_iff, not_and, not_not]; exact hsk n)]
+        simp only [denL]
+        rw [hfilt]
+        exact sumVars_congr card _ (fun τ => (S.nil pop w hw τ).symm) σ
+      · split
+        · -- only keys are summed
+          rename_i _ _ hsr
+          rw [TrsoAux.subset'_iff] at hsr
+          rw [hleaf _ (hsub _) σ]
+          rw [hcore _ (TrsoAux.mem_kept_names children (fun p => decide (p.1 ∉ rs.map (·.name)))
+            (fun n => n ∉ rs.map (·.name)) (by intro p; simp))]
+          have : (rs.map (·.name)).filter (fun n => decide (n ∉ (childDict children).map (·.1))) = [] := by
+            rw [List.filter_eq_nil_iff]; intro a ha; simpa using hsr a ha
+          rw [this]
+          rfl
+        · -- general case
+          have hsum : ∀ (e : Expr) (r : List Var), denL card leaf (.sum e r) σ =
+              sumVars card (r.map (·.name)) (fun τ => denL card leaf e τ) σ := by
+            intro e r; simp only [denL]
+          rw [hsum, funext (hleaf _ (hsub _))]
+          rw [hcore _ (fun n => (TrsoAux.mem_kept_names children
+            (fun p => decide (p.1 ∉ (rs.map (·.name)).filter (fun x => decide (x ∈ (childDict children).map (·.1)))))
+            (fun n => n ∉ (rs.map (·.name)).filter (fun x => decide (x ∈ (childDict children).map (·.1))))
+            (by intro p; simp) n).trans (by simp only [List.mem_filter]; simp; tauto))]
+          have hl : rs.filter (fun r => decide (r.name ∉ (rs.map (·.name)).filter
+                (fun x => decide (x ∈ (childDict children).map (·.1))))) =
+              rs.filter (fun r => decide (r.name ∉ (childDict children).map (·.1))) := by
+            apply List.filter_congr
+            intro r hr'
+            have : r.name ∈ rs.map (·.name) := List.mem_map.2 ⟨r, hr', rfl⟩
+            simp only [List.mem_filter, this, true_and, decide_eq_true_eq]
+          rw [hl, hfilt]
+  · simp only [denL]
 
 /-- `Sum.safe(e, rs, simplify=b)` denotes the sum of `e` over the sorted, duplicate-free ranges -/
 theorem denL_sumSafe (S : LeafSem card leaf) (b : Bool) {e : Expr} {rs : List Var} (he : Good S e)
